@@ -9,6 +9,8 @@ open Total_msgs
 open Total_codec
 open Total_cap
 open Total_cap2
+open Total_unesc
+open Total_emb
 
 (* ---- values ---- *)
 let hex_plain (l : coq_N list) : string =
@@ -96,11 +98,12 @@ let init () =
         last := answer_nostr res) rest;
       !last
     | _ -> "bad-args");
-  (* c03fseq <frame1> ... <frameN> : one JTMessage *)
+  (* c03fseq <frame1> ... <frameN> : one JTMessage; the model takes no receiver (Total_codec.frame_decode) and runs
+     the index-level decoder Total_unesc.frame_decode_chk (unescape walk with idx / slice, then the header) *)
   register "c03fseq" (fun a ->
     let r = ref Frame.empty_msg and last = ref "none" in
     Stdlib.List.iter (fun h ->
-      let res = frame_decode !r (bytes_of_hex h) in
+      let res = frame_decode_chk (bytes_of_hex h) in
       (match res with Ok m -> r := m | _ -> ());
       last := (match res with Ok m -> show_msg m | Err e -> "err " ^ dec_of_n e | Panic -> "panic")) a;
     !last);
@@ -109,7 +112,7 @@ let init () =
      followed by the tail (on the slow path it is a bytes.Buffer's array; the model's answer does not depend on it) *)
   register "c03ft" (fun a -> match a with
     | [h; tl] ->
-      (match decode_chk_cap (bytes_of_hex h) (n_of_int 126 :: bytes_of_hex tl) with
+      (match frame_cap (bytes_of_hex h) (bytes_of_hex tl) (n_of_int 126 :: bytes_of_hex tl) with
        | Ok m -> show_msg m | Err e -> "err " ^ dec_of_n e | Panic -> "panic")
     | _ -> "bad-args");
   register "c03rt" (fun a -> match a with
@@ -131,6 +134,26 @@ let init () =
     | [k; d; id; c; tl] ->
       Drv_c08.ext_res (ext_cap (Drv_c08.kind_of k) (LocationExt.fresh_ext (n_of_int (int_of_string d)))
                          (n_of_int (int_of_string id)) (bytes_of_hex c) (bytes_of_hex tl))
+    | _ -> "bad-args");
+  (* extemb <kind> <dialect> <body> <tail> : T0x0200.Parse with the extension handler installed through
+     CustomAdditionContentFunc (Model/Total_emb.v) *)
+  register "extemb" (fun a -> match a with
+    | [k; d; h; tl] ->
+      let e0 = LocationExt.fresh_ext (n_of_int (int_of_string d)) in
+      (match t0200_emb (Drv_c08.kind_of k) e0 (bytes_of_hex h) (bytes_of_hex tl) with
+       | Ok ((l, items), e) ->
+         let items = Stdlib.List.sort (fun x y -> compare (int_of_n x.ei_add.Location.a_id) (int_of_n y.ei_add.Location.a_id)) items in
+         let adds = "adds=[" ^ String.concat ";" (Stdlib.List.map (fun it ->
+             let ad = it.ei_add in
+             Printf.sprintf "%s/%s:%s:%s:%s" (dec_of_n ad.Location.a_id) (dec_of_n ad.Location.a_id) (dec_of_n ad.Location.a_len)
+               (hex_of_bytes ad.Location.a_data) (if it.ei_custom then "custom" else Drv_c08.val_dump ad.Location.a_val)) items) ^ "]" in
+         (match Location.loc_render l with
+          | Ok rt ->
+            "ok " ^ Drv_c08.loc_dump l ^ " " ^ adds ^ " rt=" ^ hex_of_bytes rt ^ " handler: "
+            ^ (if Stdlib.List.exists (fun it -> it.ei_custom) items then Drv_c08.ext_dump e else "-")
+          | _ -> "panic")
+       | Err e -> "err " ^ dec_of_n e
+       | Panic -> "panic")
     | _ -> "bad-args");
   (* c03rtp <hex> | c03rseq <hex1> ... <hexN> : one Packet *)
   let rtp_seq a =
